@@ -162,6 +162,20 @@ func runC04(c Case, st *Stats) error {
 			classes = append(classes, "empty-bucket-name")
 		}
 	}
+	for _, s := range c.Steps {
+		if s.K != "tx" || len(s.Ops) < 2 {
+			continue
+		}
+		cat := map[string]string{}
+		for _, op := range s.Ops {
+			k := string(op.B) + string(op.Key)
+			if b, ok := cat[k]; ok && b != string(op.B) {
+				classes = append(classes, "one-transaction-writes-coinciding-bucket+key-concatenations")
+			}
+			cat[k] = string(op.B)
+		}
+		classes = append(classes, "multi-bucket-transaction")
+	}
 	classes = append(classes, fmt.Sprintf("mode%d", c.Cfg.Mode))
 	st.Eval(c.JSON(), adversarial && len(buckets) >= 2, dedupe(classes)...)
 	return nil
@@ -181,6 +195,6 @@ func TestC04(t *testing.T) {
 	// single-op-per-structure transactions: one call per transaction for list/set/zset
 	// (C13's in-transaction visibility must not interfere), multi-op for KV.
 	p := mixedParams{Modes: []int{0, 0, 1, 2}, Segs: []int64{200, 333, 1024}, Buckets: []string{"b", "bb", "b|", "", "ab", "a"},
-		MinB: 2, MaxB: 3, MaxSteps: 25, MaxOps: 1, ReopenPct: 10, Structs: true, ReadsInTx: true}
+		MinB: 2, MaxB: 3, MaxSteps: 25, MaxOps: 1, ReopenPct: 10, Structs: true, ReadsInTx: true, MultiKV: 5}
 	runProperty(t, "C04", genMixedCase(p), runC04)
 }
